@@ -597,13 +597,24 @@ def r6_codec(P, rep, ctx):
     rep.check(ok, "C16.R6", to.qual, "to_ep_name == name + EP_NAME_VER_SEP + to_semver_str(version)", to.loc(), construct="to_ep_name format", message="to_ep_name does not build `{name}{EP_NAME_VER_SEP}{to_semver_str(version)}`")
     fr = P.func(f"{T}.from_ep_name")
     splits = [st for st in walk_local(fr.node) if isinstance(st, ast.Assign) and isinstance(st.value, ast.Call) and call_attr(st.value) == "split"]
-    ok = len(splits) == 1 and norm(splits[0].value.args[0]) == "EP_NAME_VER_SEP" and isinstance(splits[0].targets[0], ast.Tuple) and len(splits[0].targets[0].elts) == 2
+    two = False
+    unpack_st = splits[0] if len(splits) == 1 else None
+    if len(splits) == 1:
+        tg0 = splits[0].targets[0]
+        two = isinstance(tg0, ast.Tuple) and len(tg0.elts) == 2
+        if isinstance(tg0, ast.Name):
+            # `parts = ep_name.split(SEP)` (bound once) ... `name, ver = parts`: the same two-way unpacking through a local
+            stores = [x for x in walk_local(fr.node) if isinstance(x, ast.Name) and isinstance(x.ctx, ast.Store) and x.id == tg0.id]
+            unp = [st for st in walk_local(fr.node) if isinstance(st, ast.Assign) and isinstance(st.value, ast.Name) and st.value.id == tg0.id]
+            unpack_st = unp[0] if len(unp) == 1 else None
+            two = len(stores) == 1 and len(unp) == 1 and isinstance(unp[0].targets[0], ast.Tuple) and len(unp[0].targets[0].elts) == 2 and not any(isinstance(e, ast.Starred) for e in unp[0].targets[0].elts)
+    ok = len(splits) == 1 and len(splits[0].value.args) == 1 and norm(splits[0].value.args[0]) == "EP_NAME_VER_SEP" and two
     rep.check(ok, "C16.R6", fr.qual, "from_ep_name splits on EP_NAME_VER_SEP into exactly two parts", fr.loc(), construct="from_ep_name split", message="from_ep_name does not split on the same separator constant into exactly (name, version)")
     if ok:
-        nvar, vvar = [e.id for e in splits[0].targets[0].elts]
+        nvar, vvar = [e.id for e in unpack_st.targets[0].elts]
         rets = [x.value for x in walk_local(fr.node) if isinstance(x, ast.Return)]
         ok2 = len(rets) == 1 and isinstance(rets[0], ast.Tuple) and len(rets[0].elts) == 2 and norm(rets[0].elts[0]) == nvar and norm(rets[0].elts[1]) in (f"from_semver_str(SemVerStr({vvar}))", f"from_semver_str({vvar})")
-        rebinds = [st for st in walk_local(fr.node) if isinstance(st, (ast.Assign, ast.AugAssign)) and st not in splits and any(isinstance(t, ast.Name) and t.id in (nvar, vvar) for _, t in store_targets(st))]
+        rebinds = [st for st in walk_local(fr.node) if isinstance(st, (ast.Assign, ast.AugAssign)) and st not in splits and st is not unpack_st and any(isinstance(t, ast.Name) and t.id in (nvar, vvar) for _, t in store_targets(st))]
         rep.check(ok2 and not rebinds, "C16.R6", fr.qual, "from_ep_name returns the name part unchanged and the parsed version part", fr.loc(), construct="from_ep_name result",
                   message=f"from_ep_name transforms the decoded name or version: returns {[norm(r) for r in rets]}{' after ' + norm(rebinds[0]) if rebinds else ''}")
     ts = P.func(f"{T}.to_semver_str")
